@@ -184,7 +184,9 @@ def run_loss(ctx, desc):
     n_acks = last_sub + 1
 
     def one(c, plan_factory, must):
-        rig = make_rig(seqname)
+        rig = make_rig(seqname, crc_support=not c.get("lenient_server"))
+        if c.get("lenient_server"):
+            rig.server.check_size = False        # no CRC support, announced size not verified: only correct retransmission saves the data
         rig.bus.fault = plan_factory(rig)
         exc = None
         try:
@@ -260,8 +262,8 @@ def run_loss(ctx, desc):
     # seeded multi-loss
     for j in range(desc["multi"]):
         ks = sorted(rng.sample(range(nseg + 3), min(rng.randint(2, 4), nseg)))
-        c = dict(c0, kind="loss-multi", ks=ks, loss_class="multi")
-        ctx.case((c["kind"], lenclass(n), seqname, len(ks)))
+        c = dict(c0, kind="loss-multi", ks=ks, loss_class="multi", lenient_server=bool(j % 2))
+        ctx.case((c["kind"], lenclass(n), seqname, len(ks), c["lenient_server"]))
         one(c, lambda rig, ks=ks: faults.Multi(segment_pred(rig), ks, faults.drop), False)
     # duplicated segments must be harmless
     for k in range(0, nseg, max(1, nseg // 12)):
